@@ -657,6 +657,9 @@ pub fn c17(ctx: &mut Ctx) {
         vec![Var(0), Var(2), Var(3), Var(1)],
         vec![Var(2), Var(0), Var(0), abs(app(Var(1), Var(0)))],
         vec![app(Var(0), Var(1)), Var(3), Var(0), Var(0)],
+        // free variables whose index does not fit in 32 bits, bare and under binders of the payload
+        vec![Var(1 << 32), abs(app(Var(1), Var((1 << 32) + 1))), Var((1 << 40) + 3), Var(2)],
+        vec![abs(abs(app(Var(2), Var((1 << 32) + 2)))), Var(1 << 32), Var(1), abs(Var((1 << 32) + 1))],
     ];
     for _ in 0..n {
         let v: Vec<Term> = (0..4).map(|_| { let bb = 2 + ctx.rng.below(7); random_closed(&mut ctx.rng, bb, 0) }).collect();
@@ -665,7 +668,7 @@ pub fn c17(ctx: &mut Ctx) {
         payload_sets.push(w);
     }
     for (pi, ps) in payload_sets.iter().enumerate() {
-        ctx.strict = pi < 5;
+        ctx.strict = pi < 7;
         let (x, y, z, f) = (ps[0].clone(), ps[1].clone(), ps[2].clone(), ps[3].clone());
         // payloads may themselves be reducible: compare normal forms of both sides
         check_eq(ctx, "I x = x", &app(I(), x.clone()), &x);
@@ -772,7 +775,7 @@ pub fn c17(ctx: &mut Ctx) {
         }
     }
     ctx.strict = false;
-    for ps in payload_sets.iter().skip(5).step_by(2).take(if ctx.thorough { 100 } else { 15 }) {
+    for ps in payload_sets.iter().skip(7).step_by(2).take(if ctx.thorough { 100 } else { 15 }) {
         let (x, y) = (ps[0].clone(), ps[1].clone());
         // closed payloads: the From conversion is the normal form of the constructor application
         if let (Some(nx), Some(ny)) = (nf(&x, 2000), nf(&y, 2000)) {
